@@ -479,7 +479,11 @@ func EncKey(r *core.Rand) rm.EncKey {
 	n, _ := rm.CryptoLen(t)
 	switch r.Pick(12) {
 	case 0: // unknown type, arbitrary length
-		return rm.EncKey{Type: uint16(8 + r.Pick(65000)), Data: r.Bytes(r.Pick(80))}
+		t := uint16(8 + r.Pick(65528))
+		if r.Chance(1, 2) { // first unassigned code, byte boundaries, the experimental range 65280-65534 and both ends of it
+			t = []uint16{8, 9, 255, 256, 65279, 65280, 65281, 65300, 65533, 65534, 65535}[r.Pick(11)]
+		}
+		return rm.EncKey{Type: t, Data: r.Bytes(r.Pick(80))}
 	case 1: // known type, length not matching the type (parser-accepted, validator-rejected)
 		return rm.EncKey{Type: uint16(t), Data: r.Bytes(r.Pick(70))}
 	case 2:
@@ -574,7 +578,7 @@ func MetaLeaseSet(r *core.Rand) (rm.MetaLeaseSet, Shape) {
 	return l, sh
 }
 
-var elsSigTypes = []int{7, 7, 11, 11, 0, 1, 2, 8}
+var elsSigTypes = []int{7, 7, 7, 11, 11, 11, 0, 0, 1, 1, 2, 2, 8, 8, 3, 4, 5, 6}
 
 func EncryptedLeaseSet(r *core.Rand) (rm.EncryptedLeaseSet, Shape) {
 	var l rm.EncryptedLeaseSet
@@ -1130,7 +1134,21 @@ func Sized(kind string, arg int, r *core.Rand) (Case, bool) {
 		return Case{Bytes: ri.Encode(), Shape: sh}, true
 	case "leaseset2":
 		l, sh := LeaseSet2(r)
-		l.Options = mappingOfSize(r, n)
+		if r.Chance(1, 3) {
+			// a key of a type the library does not know, as long as the two-byte key length allows
+			l.Keys = append([]rm.EncKey{}, l.Keys...)
+			k := r.Pick(len(l.Keys) + 1)
+			long := rm.EncKey{Type: []uint16{8, 255, 65280, 65534, 65535}[r.Pick(5)], Data: r.Bytes(n)}
+			if k == len(l.Keys) && len(l.Keys) < 16 {
+				l.Keys = append(l.Keys, long)
+			} else {
+				l.Keys[k%len(l.Keys)] = long
+			}
+			sh["keys"] = len(l.Keys)
+			sh["long_key"] = n
+		} else {
+			l.Options = mappingOfSize(r, n)
+		}
 		sh["sized"] = n
 		return Case{Bytes: l.Encode(), Shape: sh}, true
 	case "metaleaseset":
